@@ -600,6 +600,10 @@ func (s *Sim) dispatch(ev *Event) {
 		if s.deferIfStalled(n, ev) {
 			return
 		}
+		if s.sc.HonourStop && ev.Gen != n.txGen {
+			s.fault("open_tx_request_forgotten_after_StopTxFlow")
+			return
+		}
 		tx := ev.Tx
 		// a requested transaction that is in the chain by the time the peer's answer arrives
 		// (or that was evicted everywhere) does not re-enter the pool and is not handed over
